@@ -19,7 +19,7 @@ class C01(PureCheck):
     warm_every = 2
     rule = ("every attribute record (9 fg x 9 bg x {absent,False,True}^6; quick: all 5,184 records without "
             "explicit False + sampled False variants) built through fmtstr(text, **kwargs) with 7 texts "
-            "(empty, ASCII, controls, wide+combining, a combining mark / ZWJ alone in its run), every C0 (without ESC) / DEL / C1 (without CSI) control character first, last and alone in a run, plus multi-run values built with + (empty runs "
+            "(empty, ASCII, controls, wide+combining, a combining mark / ZWJ alone in its run), runs of blanks only under every single attribute and fg + each other attribute, every C0 (without ESC) / DEL / C1 (without CSI) control character first, last and alone in a run, plus multi-run values built with + (empty runs "
             "included); str(f) is lexed and the token list validated by TLC (Sgr.tla stream terminal). "
             "distinct_nontrivial = distinct (attribute records of all runs, text lengths) with at least one "
             "rendered attribute")
@@ -51,6 +51,20 @@ class C01(PureCheck):
         for k in range(600 if tier == "quick" else 6000):
             a = [rng.choice([0, 2, 5]), rng.choice([0, 0, 4])] + [rng.choice([0, 1, 1, 2]) for _ in range(6)]
             yield {"runs": [[enc.enc_text(TEXTS[k % len(TEXTS)]), a]], "twin": 1}
+        # runs that hold nothing but blanks (space, newline, tab, ideographic / no-break space): every single attribute
+        # alone, and the foreground colour with each other attribute - alone and between two visible runs
+        for t in (" ", "  ", "\n", "\t ", "\u3000", "\xa0", " \n "):
+            recs = []
+            for i in range(8):
+                for v in ((1, 5) if i < 2 else (2, 1)):
+                    a = [0] * 8
+                    a[i] = v
+                    recs.append(a)
+                    if i > 0:
+                        recs.append([3] + a[1:])
+            for a in recs:
+                yield {"runs": [[enc.enc_text(t), a]]}
+                yield {"runs": [[[120], [0, 0, 2, 0, 0, 0, 0, 0]], [enc.enc_text(t), a], [[121], [4, 0, 0, 0, 0, 0, 0, 0]]]}
         # every control character that is no introducer (C0 without ESC, DEL, C1 without CSI) first, last and alone in a run
         for c in [c for c in range(0, 32) if c != 27] + [127] + [c for c in range(128, 160) if c != 155]:
             a = [1 + c % 8, (c // 8) % 9, 2 * (c % 2), 0, 0, 2 * ((c // 2) % 2), 0, 0]
